@@ -31,6 +31,10 @@ CLAIMED = {
          "Machine-checked proof (Coq 8.16): for any number and interleaving of unary/server-/client-/bidi-streaming methods the stub of each method carries the path /<full service>/<method>, the call shape of its flags, and for streaming methods an index that selects that very method among the service's streaming methods in declaration order (counter invariant by induction); one registration function per service bound to its own description; every service counts its streams from zero. Tied to the code by building protoc-gen-grpchan from /repo on every run, feeding it CodeGeneratorRequests for random descriptors (0-4 services, 0-12 methods, snake/camel names, nested packages, imported types, the option matrix), parsing each emitted file with go/parser and comparing the extracted (register function, description, path, shape, Streams[i]) tuples with the model and with a position-based specification; regenerating grpchantesting/test.proto must reproduce test.pb.grpchan.go byte for byte.",
          "Trusted: Coq kernel; the AST extraction in the harness; CamelCase naming comes from the plugin's own name library; template rendering/gopoet are observed through the AST, not modelled; 'valid Go' is go/parser acceptance (type-checking would need protoc-gen-go output); the layout of ServiceDesc.Streams by the standard generator (declaration order of streaming methods) is an assumption about protoc-gen-go-grpc.",
          "7/C19"),
+ "C12": ("Coq theorems over all method-name strings for the in-process router and over segment lists for path.Join + exhaustive-ish name grammar against both transports and both HTTP registration paths",
+         "Machine-checked proof (Coq 8.16): for EVERY method-name string the in-process router runs a handler only for that handler's own name (with or without the leading slash) and kind, runs it for every registered name, answers Unimplemented otherwise and never indexes out of range; for every absolute base path and plain service/method segments client and server compute the same joined path and distinct (service, method) pairs give distinct paths. Over HTTP names with empty or dot segments are normalised by path.Join and reach the handler (refuted theorem, known finding F17). Tied to the code by running a name grammar (well-formed, no slash, empty, extra segments, prefixes/suffixes, dot segments, kind swapped, characters needing escaping) against random registries on inprocgrpc and on httpgrpc through Server/WithBasePath and HandleServices for ten base paths on loopback, recording which handler ran, plus path.Join itself against its model.",
+         "Trusted: Coq kernel; hand-written models of path.Clean/Join and of ServeMux exact matching (legacy semantics, as in the repository's go 1.18 module), validated by the runs; URL escaping is exercised, not modelled.",
+         "7/C12"),
  "C14": ("Coq theorems over tables regenerated from codes.go by a Go-AST translator + exhaustive differential/correspondence run",
          "Machine-checked proof (Coq 8.16): the code->HTTP and HTTP->code tables and the renderer guard are regenerated from /repo's source on every run and the theorems (documented table, error status for every non-OK code over all of Z, the 499 rule, recovery of every uint32 code through the %d/ParseInt/int32 round trip, OK iff 2xx for every integer status) are re-proved against them; the hand-written glue (header precedence) is tied to the code by running real server, real client and loopback end-to-end calls on all codes 0..40, boundary and random uint32 codes, and all HTTP statuses 100..599.",
          "Trusted: Coq kernel; the go2coq translator (differentially tested on every run against the real functions); the model of fmt %d / strconv.ParseInt (lib/Dec.v); net/http's handling of the status header on loopback is observed, not proved.",
